@@ -25,6 +25,11 @@ impl<T> MpscSender<T> {
     pub fn unbounded_send(&self, msg: T, Tracked(w): Tracked<&mut World>) -> (r: Result<(), TrySendError<T>>)
         ensures submit_post(self.q(), pid_of(&msg), true, old(w), final(w), r is Ok)
     { unimplemented!() }
+    // SinkExt::feed: enqueue as soon as the sink accepts it, WITHOUT the flush that waits for the receiver: not a waiting submit
+    #[verifier::external_body]
+    pub fn feed(&mut self, msg: T, Tracked(w): Tracked<&mut World>) -> (r: Result<(), SendError>)
+        ensures final(self).q() == old(self).q(), submit_post(old(self).q(), pid_of(&msg), true, old(w), final(w), r is Ok)
+    { unimplemented!() }
     // SinkExt::send: the waiting operation (enqueue, then flush: on a bounded queue wait until the receiver catches up or goes away)
     #[verifier::external_body]
     pub fn send(&mut self, msg: T, Tracked(w): Tracked<&mut World>) -> (r: Result<(), SendError>)
@@ -81,3 +86,15 @@ pub fn oneshot_channel<T>(Tracked(w): Tracked<&mut World>) -> (r: (OsSender<T>, 
     ensures r.0.slot() == r.1.slot(), *final(w) == (World { last_slot: r.0.slot(), ..*old(w) }), fresh_slot(r.0.slot(), old(w))
 { unimplemented!() }
 pub uninterp spec fn fresh_slot(s: int, w: &World) -> bool;
+
+// std::sync::atomic::AtomicBool behind an Arc (a flag shared between closures); its value is whatever other tasks left there
+#[verifier::external_body] pub struct AtomicBoolV { x: u8 }
+pub enum Ordering { Relaxed, Release, Acquire, AcqRel, SeqCst }
+impl OwnView for AtomicBoolV { open spec fn own(&self) -> Own { own_none() } }
+#[verifier::external_body] pub fn atomic_bool_new(v: bool) -> (r: AtomicBoolV) { unimplemented!() }
+impl AtomicBoolV {
+    #[verifier::external_body] pub fn clone(&self) -> (r: Self) { unimplemented!() }
+    #[verifier::external_body] pub fn load(&self, o: Ordering) -> (r: bool) { unimplemented!() }
+    #[verifier::external_body] pub fn store(&self, v: bool, o: Ordering) { unimplemented!() }
+}
+impl ArcNew<AtomicBoolV> for AtomicBoolV { open spec fn arc_ok(t: &AtomicBoolV, r: &Self) -> bool { true } #[verifier::external_body] fn arc_new_(t: AtomicBoolV) -> (r: Self) { unimplemented!() } }
